@@ -50,6 +50,10 @@ class _FS:
             self.data = self.data + b"\0" * (size - n)
         if not len(self.data):
             self.data = b""
+        # a successful truncate marks the modification time for update (to "now"), whatever it was set to before
+        self.mtime_touched = True
+        if self.times is not None:
+            self.times = (self.times[0], "now")
 
     def truncate(self, fn, size):
         self._trunc(size)
@@ -171,7 +175,11 @@ def attr_case(maxlen):
             ctx.prove(newmode is None, "no-chmod-without-permissions")
         if has_times:
             if ctx.prove(newtimes is not None, "times-as-os.utime"):
-                ctx.prove((lift(newtimes[0]) == at) & (lift(newtimes[1]) == mt), "times-as-os.utime")
+                if newtimes[1] == "now" if isinstance(newtimes[1], str) else False:
+                    # the requested modification time was set and then overwritten by a later change of the file
+                    ctx.prove(False, "times-as-os.utime")
+                else:
+                    ctx.prove((lift(newtimes[0]) == at) & (lift(newtimes[1]) == mt), "times-as-os.utime")
         elif ctx.symbolic:
             ctx.prove(newtimes is None, "no-utime-without-times")
     return Case("set_file_attr", fn,
